@@ -5,6 +5,8 @@ From Gopki.Model Require Import Bytes Base64 Pem Der Asn1 Text Algs Glue Pkcs8 E
 From Gopki.Spec Require Import RegenSpec DirInv MergeSpec ValidateSpec X509Spec ExtSpec AdmissionSpec PolicySpec.
 From Gopki.Proofs Require Import RunProofs ExtProofs PlanProofs WfProofs X509Proofs DerProofs Asn1Proofs TimeRangeProofs RdnProofs GenerateProofs ValidateProofs TimeProofs AlgsProofs Base64Proofs PolicyProofs MergeProofs CliProofs OpsProofs FaultProofs HistoryProofs HashViewProofs Pkcs8Proofs RecoverProofs PemTornProofs AdmissionProofs PemProofs GlueProofs.
 From Gopki.Proofs Require Import RegenBoolProofs WritesProofs.
+From Gopki.Model Require Import Names.
+From Gopki.Proofs Require Import NamesProofs.
 Import ListNotations.
 
 (* the consistency check accepts exactly the hierarchies in which every entity reaches a root *)
@@ -25,3 +27,20 @@ Theorem C18_refused_run_changes_nothing :
     is_consistent (d_ents d) = false -> run cur_csr cur_nilcert d s fault = (RErr, d, []).
 Proof. exact (refused_run_changes_nothing cur_csr cur_nilcert). Qed.
 Print Assumptions C18_refused_run_changes_nothing.
+
+(* an entity without explicit alias is called after the base name of its configuration file, in whatever sub-directory (directory and
+   base name may contain dots), and its artifact is <config path without extension>.pem *)
+Theorem C18_alias_is_base_name :
+  forall dir base ext : bytes,
+    no_byte 47 base -> no_byte 47 ext -> no_byte 46 ext ->
+    alias_of_path (dir ++ slash :: base ++ dot :: ext) = GOk base /\
+    artifact_path (dir ++ slash :: base ++ dot :: ext) = GOk (dir ++ slash :: base ++ str ".pem").
+Proof. exact alias_in_subdirectory. Qed.
+Print Assumptions C18_alias_is_base_name.
+
+Theorem C18_alias_in_top_directory :
+  forall base ext : bytes,
+    no_byte 47 base -> no_byte 47 ext -> no_byte 46 ext ->
+    alias_of_path (base ++ dot :: ext) = GOk base /\ artifact_path (base ++ dot :: ext) = GOk (base ++ str ".pem").
+Proof. exact alias_in_top_directory. Qed.
+Print Assumptions C18_alias_in_top_directory.
